@@ -569,7 +569,6 @@ func cmdCheck(argv []string) int {
 				tries = 1
 			}
 			var res *nativeResult
-			var err error
 			hits := 0
 			for t := 0; t < tries; t++ {
 				res, err = nb.run(bin, c.r.h.Entry, c.r.args, c.path, 3*time.Minute)
